@@ -358,10 +358,20 @@ pub fn check_with(c: &EncCase, strict: Strictness, ctx: &Ctx) -> Verdict {
             let unpadded = ref_decode(dm.data_codewords()).map(|d| d.unpadded_len()).unwrap_or(cc);
             let near = caps.iter().any(|x| *x >= unpadded && *x - unpadded <= 2);
             let rel = match &own {
-                Some((l, _)) if *l > unpadded => "crate-shorter-than-reference",
+                Some((l, s)) if *l > unpadded => {
+                    if std::env::var("VERIF_C10_TRACE_SHORTER").is_ok() {
+                        eprintln!("SHORTER crate={} ref={} cap={} modes={} data={:?} crate_stream={:?} ref_script={:?}", unpadded, l, cc, mode_names(c.modes), show(&c.data), dm.data_codewords(), s);
+                    }
+                    "crate-shorter-than-reference"
+                }
                 Some((l, _)) if *l == unpadded => "equal-length",
                 Some(_) => "same-symbol-longer-stream",
-                None => "reference-incomplete",
+                None => {
+                    if std::env::var("VERIF_C10_TRACE_SHORTER").is_ok() {
+                        eprintln!("INCOMPLETE crate={} cap={} modes={} data={:?} crate_stream={:?}", unpadded, cc, mode_names(c.modes), show(&c.data), dm.data_codewords());
+                    }
+                    "reference-incomplete"
+                }
             };
             (uses_non_ascii || near, format!("{}/{}/{}", crate::obs::modes_class(c.modes), crate::obs::list_class(c.list), rel))
         }
@@ -561,6 +571,20 @@ fn run_stages(ctx: &Arc<Ctx>) {
     ctx.run_generated("explore", "enc-explore", ctx.cases(200_000, 3_000_000), || g_enc_case(o).prop_map(|mut c| { c.macros = false; c }), |c| check_with(c, Strictness::Explore, ctx));
     // (c) the same with header codewords in front: macro envelopes (compacted and look-alikes), FNC1 start
     let o = EncGenOpts { long_weight: 0, macro_weight: 6, allow_fnc1: true, allow_macros_flag: true, short_only: true, ..Default::default() };
+    // two families aimed at whole-message decisions of one codeword
+    ctx.run_generated("explore-shift-tail", "enc-explore", ctx.cases(60_000, 1_000_000), || {
+        (g_shift_tail(), g_modes(), g_list(), any::<u8>()).prop_map(|(data, modes, list, fp)| {
+            let data = if fp % 2 == 0 { fit_pad(&data, modes, fp / 2) } else { data };
+            let list = match list { ListSpec::Default => default_mask(), ListSpec::All => ALL_MASK, ListSpec::Mask(m) => m, ListSpec::Fit(k) => resolve_fit(&data, modes, false, false, k) };
+            EncCase { data, list, modes, macros: false, fnc1: false, eci: None, stratum: "shift-tail" }
+        })
+    }, |c| check_with(c, Strictness::Explore, ctx));
+    ctx.run_generated("explore-capacity-shaped", "enc-explore", ctx.cases(20_000, 400_000), || {
+        (g_capacity_shaped(), g_modes(), any::<u8>()).prop_map(|(data, modes, l)| {
+            let list = match l % 4 { 0 => default_mask(), 1 | 2 => ALL_MASK, _ => resolve_fit(&data, modes, false, false, l / 4 % 6) };
+            EncCase { data, list, modes, macros: false, fnc1: false, eci: None, stratum: "capacity-shaped" }
+        })
+    }, |c| check_with(c, Strictness::Explore, ctx));
     ctx.run_generated("explore-headers", "enc-explore", ctx.cases(60_000, 1_000_000), || g_enc_case(o), |c| check_with(c, Strictness::Explore, ctx));
 }
 
